@@ -24,6 +24,9 @@ func (e *histEngine) step(r *rng, k int) MalType {
 	if k == 0 || r.chance(1, 6) {
 		switch r.intn(8) {
 		case 0:
+			if r.chance(1, 2) {
+				return vc(1, 2, 3, 4, 5) // 5 elements: capacity 8
+			}
 			return vc(1, 2, 3) // a vector literal: built by element-wise append, so it has spare capacity
 		case 1:
 			return call1("vector", 1, 2, 3)
@@ -50,7 +53,16 @@ func (e *histEngine) step(r *rng, k int) MalType {
 	case 4, 5:
 		return call1("concat", prev(), vc(lit()))
 	case 6:
-		return call1("concat", prev(), prev())
+		switch r.intn(4) {
+		case 0:
+			return call1("concat", prev(), prev())
+		case 1: // n-ary, with empty leading / interleaved arguments
+			return call1("concat", List{Val: []MalType{sy("list")}}, prev(), vc(lit()))
+		case 2:
+			return call1("concat", Vector{}, call1("list"), prev(), prev(), vc(lit()))
+		default: // the flatten idiom
+			return call1("apply", sy("concat"), call1("list", call1("list"), prev(), vc(lit())))
+		}
 	case 7:
 		return call1("cons", lit(), prev())
 	case 8:
